@@ -132,8 +132,8 @@ def check_bn(c, rec):
             hist.append(f"load rm={s['rm']} rv={s['rv']}")
         else:
             x = gen.arr(s["v"], s["shape"], dt)
-            if any(s.get("offset", [])):
-                big = 1.0e4 if dt == np.float64 else 64.0
+            if any(s.get("offset", [])) and dt == np.float64:
+                big = 1.0e4
                 x = (x.astype(np.float64) + (np.array(s["offset"]) * big).reshape([1, C] + [1] * (x.ndim - 2))).astype(dt)
             x64 = x.astype(np.float64)
             hist.append(f"forward{'+backward' if k == 'forward_backward' else ''}({s['shape']}, training={training}"
